@@ -401,6 +401,19 @@ fn reader_case(ctx: &mut Ctx, threads: usize, sub: u64) {
     for (i, &c) in cstart.iter().enumerate() {
         ids.insert(fnv(&file[c as usize..cend[i]]), i);
     }
+    // one file in five is cut inside the body of its last data member (after the 18 header bytes): the
+    // single-threaded reader fails the read; the multithreaded reader must report it too — from a read
+    // or, at the latest, from finish()
+    let truncated = corrupt.is_none() && rng.chance(1, 5);
+    if truncated {
+        let j = nblocks - 1;
+        let (c, e) = (cstart[j] as usize, cend[j]);
+        if e - c > 19 {
+            let cut = c + 18 + rng.below((e - c - 18) as u64) as usize;
+            file.truncate(cut);
+        }
+    }
+    let eof_pos = if truncated { cstart[nblocks - 1] } else { eof_pos };
     // ops
     let mut ops = vec![];
     for _ in 0..(2 + rng.below(10)) {
@@ -410,7 +423,12 @@ fn reader_case(ctx: &mut Ctx, threads: usize, sub: u64) {
             2 => ROp::ReadExact(*rng.pick(&[1usize, 4, 100, 66000])),
             3 => ROp::FillConsume(*rng.pick(&[0usize, 1, 5, 100000])),
             4 | 5 => ROp::Seek(cstart[k], rng.below(lens[k] as u64 + 1) as u16),
-            6 => ROp::Seek(eof_pos, 0),
+            6 => match rng.below(4) {
+                0 | 1 => ROp::Seek(eof_pos, 0),
+                // behind the last frame: the end position a reader reports after reading everything
+                2 => ROp::Seek(eof_pos + 28, 0),
+                _ => ROp::Seek(eof_pos + 28, 2),
+            },
             _ => ROp::Tell,
         });
     }
@@ -441,6 +459,21 @@ fn reader_case(ctx: &mut Ctx, threads: usize, sub: u64) {
     ctx.eval(if nblocks >= 2 { Some(fnv(case.as_bytes())) } else { None });
     match got {
         None => ctx.fail("mt-reader-hang", format!("multithreaded reader did not finish within the watchdog period (or panicked): {nblocks} blocks, pool {threads}, ops {ops:?}"), case),
+        Some((r, fin)) if truncated => {
+            // up to the first error of the single-threaded reader the answers must agree; at that point the
+            // multithreaded reader must fail the call or report the failure from finish()
+            let k = expect.iter().position(|a| a.contains("err:")).unwrap_or(expect.len());
+            let agree = r.len() >= k && r[..k] == expect[..k];
+            let reported = r.get(k).map(|a| a.contains("err:")).unwrap_or(false) || r.iter().any(|a| a.contains("err:")) || fin.is_err();
+            if !agree {
+                let i = r.iter().zip(&expect).position(|(a, b)| a != b).unwrap_or(r.len().min(expect.len()));
+                ctx.fail("mt-reader-differs", format!("truncated file, op {i} {:?}: multithreaded reader answered {:?}, single-threaded {:?}", ops.get(i), r.get(i), expect.get(i)), case);
+            } else if k < expect.len() && !reported {
+                ctx.fail("mt-reader-truncation-hidden", format!("file cut inside its last member: the single-threaded reader fails op {k} {:?} with {:?}; the multithreaded reader answered {:?} and finish() returned Ok — the truncation is reported nowhere", ops.get(k), expect.get(k), r.get(k)), case);
+            } else {
+                ctx.bump("reader_runs_with_truncated_file");
+            }
+        }
         Some((r, _fin)) => {
             // compare up to and including the first error; the state after an error is unspecified
             let cut = |v: &[String]| -> Vec<String> {
@@ -469,6 +502,61 @@ fn reader_case(ctx: &mut Ctx, threads: usize, sub: u64) {
     }
 }
 
+/// Ungated: the multithreaded writer against the single-threaded writer on the same `write_all` calls,
+/// byte for byte, with call sizes at and around the block capacity (65495 staged bytes).
+fn plain_writer_case(ctx: &mut Ctx, threads: usize, sub: u64) {
+    let mut rng = Rng::new(sub);
+    let case = format!("wplain {threads} {sub}");
+    const CAP: usize = 65495;
+    let mut chunks: Vec<usize> = vec![];
+    match rng.below(5) {
+        0 => chunks.extend([CAP - 1, 11]),
+        1 => chunks.extend([CAP, 10]),
+        2 => chunks.extend([CAP + 1, 5, 3]),
+        3 => {
+            let a = 1 + rng.below(CAP as u64 - 2) as usize;
+            chunks.extend([a, CAP - 1 - a, 1 + rng.below(40) as usize, 1 + rng.below(70_000) as usize]);
+        }
+        _ => {
+            for _ in 0..2 + rng.below(5) {
+                chunks.push(*rng.pick(&[1usize, 100, 30_000, CAP - 2, CAP - 1, CAP, CAP + 1, 2 * CAP - 1, 2 * CAP, 140_000]));
+            }
+        }
+    }
+    let level = *rng.pick(&[0u8, 1, 6]);
+    let data: Vec<Vec<u8>> = chunks.iter().enumerate().map(|(i, &n)| (0..n).map(|j| if i % 2 == 0 { (j % 251) as u8 } else { b"ACGT"[(j * 7 + j / 5) % 4] }).collect()).collect();
+    ctx.eval(Some(fnv(case.as_bytes())));
+    let st = {
+        let lvl = bgzf::io::writer::CompressionLevel::new(level).unwrap();
+        let mut w = bgzf::io::writer::Builder::default().set_compression_level(lvl).build_from_writer(Vec::new());
+        for d in &data {
+            w.write_all(d).unwrap();
+        }
+        w.finish().unwrap()
+    };
+    let d2 = data.clone();
+    let mt = with_watchdog(20, move || -> std::io::Result<Vec<u8>> {
+        let lvl = bgzf::io::writer::CompressionLevel::new(level).unwrap();
+        let mut w = bgzf::io::multithreaded_writer::Builder::default().set_compression_level(lvl).build_from_writer(Vec::new());
+        for d in &d2 {
+            w.write_all(d)?;
+        }
+        w.finish()
+    });
+    match mt {
+        None => ctx.fail("mt-writer-hang", format!("multithreaded writer did not finish (or panicked): write_all sizes {chunks:?}, level {level}, pool {threads}"), case),
+        Some(Err(e)) => ctx.fail("mt-writer-differs", format!("multithreaded writer failed on a healthy sink: {e}; write_all sizes {chunks:?}"), case),
+        Some(Ok(out)) => {
+            if out != st {
+                let lens = |f: &[u8]| super::c01::split_members(f).map(|ms| ms.iter().map(|m| m.isize).collect::<Vec<_>>()).unwrap_or_default();
+                ctx.fail("mt-writer-differs", format!("write_all sizes {chunks:?}, level {level}, pool {threads}: the multithreaded writer's file differs from the single-threaded writer's ({} vs {} bytes; block payload sizes {:?} vs {:?})", out.len(), st.len(), lens(&out), lens(&st)), case);
+            } else {
+                ctx.bump("plain_writer_runs_identical");
+            }
+        }
+    }
+}
+
 fn reader_cases(ctx: &mut Ctx, threads: usize) {
     let n = ctx.n(16, 200);
     for it in 0..n {
@@ -485,12 +573,16 @@ pub fn run_child(ctx: &mut Ctx) {
             Some("writer") => writer_case(ctx, threads, sub, false),
             Some("writer-fail") => writer_fail_case(ctx, threads, sub, case.get(3).and_then(|s| s.parse().ok()).unwrap_or(0)),
             Some("reader") => reader_case(ctx, threads, sub),
+            Some("wplain") => plain_writer_case(ctx, threads, sub),
             _ => {}
         }
         return;
     }
     writer_cases(ctx, threads);
     reader_cases(ctx, threads);
+    for it in 0..ctx.n(6, 120) {
+        plain_writer_case(ctx, threads, ctx.seed.wrapping_mul(71_711).wrapping_add(it).wrapping_add(threads as u64 * 1_000_003));
+    }
     ctx.bump(&format!("pool_size_{threads}"));
 }
 
